@@ -398,6 +398,16 @@ func (x *Exec) havocLoc(st *State, l Loc) {
 
 func (x *Exec) applyContract(fr *Frame, st *State, in ssa.Instruction, con *Contract, sig *types.Signature, key string, args []Val, invoke bool, k func(st *State, res Val)) {
 	con.used = true
+	if !con.Pure && !(con.HasMod && len(con.Modifies) == 0) {
+		// a callee that writes memory may store the references it is handed
+		for _, a := range args {
+			for _, t := range flatten(a) {
+				if strings.Contains(t, "ref!") {
+					st.escaped = true
+				}
+			}
+		}
+	}
 	if con.Trusted {
 		x.note("assumed contract: " + key)
 	}
